@@ -2,7 +2,9 @@ package mcap
 
 import (
 	"encoding/binary"
+	"errors"
 	"io"
+	"strings"
 )
 
 func readUint64(buf []byte, r io.Reader) (uint64, error) {
@@ -17,11 +19,16 @@ func readPrefixedString(buf []byte, r io.Reader) (string, error) {
 		return "", err
 	}
 	strlen := binary.LittleEndian.Uint32(buf[:4])
-	s := make([]byte, strlen)
-	if _, err := io.ReadFull(r, s); err != nil {
+	// The length prefix comes from the input and may claim up to 4 GiB that are not there, so
+	// the string is accumulated as its bytes arrive instead of being allocated up front.
+	var s strings.Builder
+	if _, err := io.CopyN(&s, r, int64(strlen)); err != nil {
+		if errors.Is(err, io.EOF) {
+			err = io.ErrUnexpectedEOF
+		}
 		return "", err
 	}
-	return string(s), nil
+	return s.String(), nil
 }
 
 func putByte(buf []byte, x byte) (int, error) {
